@@ -2,6 +2,7 @@ package oracle
 
 import (
 	"fmt"
+	enginev2 "github.com/NVIDIA/KAI-scheduler/pkg/apis/scheduling/v2"
 	"sort"
 	"strings"
 
@@ -281,6 +282,30 @@ func (l *Lasso) queueCause(from int) string {
 		return 100 // the scheduler's default queue priority
 	}
 	cause := ""
+	dims := map[string]bool{} // resources with a finite deserved quota on the queue paths of victims and preemptors
+	noteDims := func(path []*enginev2.Queue) {
+		for _, q := range path {
+			if r := q.Spec.Resources; r != nil {
+				if r.GPU.Quota >= 0 {
+					dims["gpu"] = true
+				}
+				if r.CPU.Quota >= 0 {
+					dims["cpu"] = true
+				}
+				if r.Memory.Quota >= 0 {
+					dims["memory"] = true
+				}
+			}
+		}
+	}
+	withDims := func(c string) string {
+		var ds []string
+		for d := range dims {
+			ds = append(ds, d)
+		}
+		sort.Strings(ds)
+		return c + ":quota-dims=" + strings.Join(ds, "+")
+	}
 	for c := from; c < len(l.Events); c++ {
 		for i := range l.Events[c] {
 			e := &l.Events[c][i]
@@ -303,6 +328,8 @@ func (l *Lasso) queueCause(from int) string {
 			}
 			// lift both to the level where the paths diverge (paths are leaf first)
 			vp, pp := m.QueuePath(vq), m.QueuePath(pq)
+			noteDims(vp)
+			noteDims(pp)
 			vi, pi := len(vp)-1, len(pp)-1
 			for vi > 0 && pi > 0 && vp[vi].Name == pp[pi].Name {
 				vi--
@@ -328,6 +355,11 @@ func (l *Lasso) queueCause(from int) string {
 	}
 	if cause == "" {
 		return "unknown"
+	}
+	if cause == "equal-queue-priority" {
+		// which resources carry deserved quotas: the allocate order and the reclaim rule can disagree when a queue
+		// is over its quota in one resource and under it in another
+		return withDims(cause)
 	}
 	return cause
 }
